@@ -2949,6 +2949,27 @@ class Data(Container, NetCDFHDF5, Files, core.Data):
 
         other = pp
 
+        # An instance without an underlying array (e.g. one that was
+        # initialised, with ignore_type=True, from an object that is
+        # not Data) has no shape, data type nor values to compare
+        has_array = self._has_component("array")
+        if has_array != other._has_component("array"):
+            logger.info(
+                f"{self.__class__.__name__}: Only one of the instances "
+                "has an underlying array"
+            )  # pragma: no cover
+            return False
+
+        if not has_array:
+            return (
+                self.get_units(None) == other.get_units(None)
+                and self.get_calendar(None) == other.get_calendar(None)
+                and (
+                    ignore_fill_value
+                    or self.get_fill_value(None) == other.get_fill_value(None)
+                )
+            )
+
         # Check that each instance has the same shape
         if self.shape != other.shape:
             logger.info(
